@@ -654,7 +654,9 @@ pub fn suite_eq(ctx: &Ctx, thorough: bool) {
     corpus.dedup();
     let vals: Vec<(String, GenericPurl<String>, String)> = corpus.iter().filter_map(|s| GenericPurl::<String>::from_str(s).ok().map(|p| { let t = p.to_string(); (s.clone(), p, t) })).collect();
     let tvals: Vec<(String, Purl, String)> = corpus.iter().map(|s| s.replace("pkg:t", "pkg:npm").replace("pkg:T", "pkg:NPM")).filter_map(|s| Purl::from_str(&s).ok().map(|p| { let t = p.to_string(); (s.clone(), p, t) })).collect();
-    fn pairs<T: PartialEq + Hash + Ord + std::fmt::Debug>(ctx: &Ctx, vals: &[(String, T, String)]) {
+    trait SlotClone: Sized { fn clone_box(&self) -> Box<Self>; fn clone_inner(&self) -> Self; }
+    impl<T: Clone> SlotClone for T { fn clone_box(&self) -> Box<Self> { Box::new(self.clone()) } fn clone_inner(&self) -> Self { self.clone() } }
+    fn pairs<T: PartialEq + Hash + Ord + std::fmt::Debug + Clone>(ctx: &Ctx, vals: &[(String, T, String)]) {
         for (i, (sa, a, ta)) in vals.iter().enumerate() {
             for (sb, b, tb) in vals.iter().skip(i) {
                 ctx.eval();
@@ -665,6 +667,15 @@ pub fn suite_eq(ctx: &Ctx, thorough: bool) {
                 if a == b { ctx.nontrivial(); }
                 if a == b && hh(a) != hh(b) {
                     ctx.violate("C19.hash", "equal PURLs have equal hashes", inp(), "hash differs".into(), "equal".into());
+                }
+                // the same values held in ONE reused slot (same address): hash, equality and order depend on the value only
+                {
+                    let mut slot = a.clone_box();
+                    let h1 = hh(&*slot);
+                    *slot = b.clone_inner();
+                    if hh(&*slot) != hh(b) || (*slot == *a) != (a == b) || (h1 != hh(a)) {
+                        ctx.violate("C19.hash", "equal PURLs have equal hashes", inp(), "hash / equality depends on where the value is stored".into(), "value only".into());
+                    }
                 }
                 let c = a.cmp(b);
                 if (c == std::cmp::Ordering::Equal) != (a == b) || c != b.cmp(a).reverse() || a.partial_cmp(b) != Some(c) {
